@@ -503,7 +503,7 @@ pub fn gen_cases(tier: Tier, seed: u64, miri: bool) -> Vec<Case> {
   }
   let mut rng = Rng::new(seed);
   // longer random strings, incl. valid multi-byte text
-  let n_rand = if miri { 30 } else { tier.pick(3000, 40_000) };
+  let n_rand = if miri { 30 } else { tier.pick(18000, 240000) };
   for _ in 0..n_rand {
     let len = rng.range(3, 24);
     let mut s = Vec::new();
